@@ -5,6 +5,7 @@
   positional evidence supporting the dynamic oracle (bytes at dst after refusal).
 -/
 import AgeModel.Extracted.CallOrder
+import Proofs.GoTieMisc
 namespace AgeModel
 namespace Tie.C11
 
@@ -13,6 +14,12 @@ theorem label_check_precedes_first_write : Extracted.labelCheckPrecedesFirstWrit
 /-- nothing touches dst before the wraps and the comparison -/
 theorem encrypt_order_prefix : (Extracted.encryptOrder.map (·.1)).take 3 =
     ["wrap recipient (with labels)", "compare label sets", "use of dst"] := by decide
+
+
+/-- The code itself (DESIGN.md §5.3): `slicesEqual`, with which Encrypt compares the sorted
+    label lists, TRANSLATED from the source on every run, is list equality. -/
+theorem slicesEqual_tie (a b : List Bytes) : Extracted.age_slicesEqual a b = .ok (decide (a = b)) :=
+  GoTie.slicesEqual_tie a b
 
 end Tie.C11
 end AgeModel
